@@ -265,7 +265,8 @@ PROPS = {
         'id': 'C07', 'area': 'lc',
         'theorems': ['Props.C07_listing_perm', 'Props.C07_listing_sorted', 'Props.C07_listing_noresume',
                      'Props.C07_listing_resume', 'Props.C07_listed_once', 'Props.C07_listed_are_live',
-                     'Props.C07_live_are_listed', 'Props.C07_counts_sum'],
+                     'Props.C07_live_are_listed', 'Props.C07_counts_sum', 'Props.C07_count_exact',
+                     'Props.C07_delivered_listed', 'Props.C07_spec'],
         'n_quick': 4000, 'n_thorough': 120000, 'project': _lc_project,
     },
 }
